@@ -526,4 +526,30 @@ example : flatten (serverOut 2 true [.series ⟨[], []⟩, .warning [1], .series
 example : serverOut 2 true [.series ⟨[], []⟩, .warning [1], .series ⟨[], []⟩, .series ⟨[], []⟩, .series ⟨[], []⟩]
     = [.batch [⟨[], []⟩], .warning [1], .batch [⟨[], []⟩, ⟨[], []⟩], .batch [⟨[], []⟩]] := by decide
 
+-- the loser tree on three concrete response sets (a failing store's warning at the end of its
+-- stream, duplicates across stores): what `losertree_refines` talks about
+private def sr (b : Nat) (cs : List Chunk) : Frame := .series ⟨[([98], [b])], cs⟩
+example : treeMerge [[sr 1 [], sr 3 []], [sr 2 [], .warning [7]], [sr 1 [], sr 4 []]]
+    = [sr 1 [], sr 1 [], sr 2 [], .warning [7], sr 3 [], sr 4 []] := by decide
+-- end to end: three stores, one of them unsorted but re-sorted by the proxy because it cannot strip the
+-- replica label "a" (= [97]); the hypotheses of `C03_sorted_once_tree` are met and the answer is what it says
+private def stOK (sw : Bool) (fs : List Frame) : Store :=
+  { supportsSharding := true, supportsWithout := sw, openErr := false, failure := .none,
+    frames := fs.map (·, true), recvMsg := [1], timeoutMsg := [2], openMsg := [3] }
+private def rq0 : Request :=
+  { fixedDedup := true, lazy := true, batchSize := 2, limit := 0, abort := false, dedup := true, sharded := false, without := [[97]] }
+private def storesEx : List Store :=
+  [stOK true [sr 1 [rawChunk 0 5 1 101], sr 3 []],
+   stOK false [.series ⟨[([97], [49]), ([98], [2])], []⟩, .series ⟨[([97], [50]), ([98], [1])], [rawChunk 10 20 2 102, rawChunk 0 5 1 101]⟩],
+   stOK true [.batch [⟨[([98], [2])], [rawChunk 0 5 3 103]⟩, ⟨[([98], [3])], []⟩]]]
+example : flatten (proxySeries rq0 storesEx).1
+    = [⟨[([98], [1])], [rawChunk 0 5 1 101, rawChunk 10 20 2 102]⟩, ⟨[([98], [2])], [rawChunk 0 5 3 103]⟩, ⟨[([98], [3])], []⟩] := by decide
+example : StoresSorted rq0 storesEx := by
+  intro st hst hro
+  simp only [storesEx, List.mem_cons, List.mem_nil_iff, or_false] at hst
+  rcases hst with rfl | rfl | rfl
+  · simp [storeSeries, stOK, sr, lblLe]; decide
+  · simp [ReadInOrder, stOK, rq0] at hro
+  · simp [storeSeries, stOK, lblLe]; decide
+
 end Thanos.Merge
